@@ -56,7 +56,7 @@ CLAIMS = {
         ref='DESIGN.md section 5 C07',
         text='Static, narrow. Decided clauses: N1 a length measured on one rendering is used as an index only into that rendering; N2 each of the four printers hands format_number the value, separators, digit count and flags from the fields the statement names (unit options with their documented defaults), percent prefixes %, units substitute {value}; '
              'N3 each public setter writes exactly its fields from the same-named parameters and the three per-unit options keep their names at every construction site; N4 the minus sign is pushed iff number < 0, first, and the digits are those of |number|; N5 no saturating float->int cast is applied to a magnitude-dependent value inside the formatter; '
-             'N6 the printed shape of money for each (symbol_on_left, space_between) combination; N7 grouping modulus 3 and the role / order of the two separators. N8 fract_information reports a zero fraction only under an exact == 0.0 and the fraction is printed iff (fract_part > 0 or zero fractions are kept) and a fraction exists (8 truth assignments walked on the CFG). Not decided: correct rounding, zero-fraction removal and grouping for all f64 values and digit counts (numerical behaviour, not reachable by this family).'),
+             'N6 the printed shape of money for each (symbol_on_left, space_between) combination; N7 grouping modulus 3 and the role / order of the two separators. N8 fract_information reports a zero fraction only under an exact == 0.0 and the fraction is printed iff (fract_part > 0 or zero fractions are kept) and a fraction exists (8 truth assignments walked on the CFG). N9 the printed text is assembled by position from the rendering: for every length of the integer part (1..13, thorough 1..40), 0/1/2/5 fraction digits, either sign and every setting of the two zero-fraction flags the result is [-] + the integer digits in groups of three from the right + [decimal separator + fraction digits], tabulated by walking the exported MIR over symbolic renderings (E6c; independent of how the loops are written); N7 and the omission table of N8 defer to it, N1 falls back on the provenance of positions recorded in these walks. Not decided: correct rounding of the value and the text of the renderings themselves (numerical behaviour, not reachable by this family); integer parts longer than the tabulated bound.'),
     'C08': dict(
         technique='effect analysis: field-read sets + call-graph layering (non-interference by absence of reads)',
         ref='DESIGN.md section 5 C08',
